@@ -420,17 +420,18 @@ theorem roundRat_ge_half (n j : Nat) (hj : 1 ≤ j) (h1 : 2 ^ (j + 52) ≤ n) (h
     exact ⟨_, _, rfl, by omega, by decide⟩
 theorem negOne_round : roundInt (-1) 0 true = fin true two52 (-52) := by decide
 
-theorem fromFloat_neg_tiny {m : Nat} {e : Int} (hc : Canon (fin true m e)) (he : e < 0)
+/-- arithmetic facts in the tiny-negative case -/
+theorem neg_tiny_facts {m : Nat} {e : Int} (hm : m < two53) (he : e < 0)
     (hk : two53 ≤ fracNum true m e) :
-    Value.fromFloat (fin true m e) = .float (fin true m e) := by
-  rw [canon_fin] at hc
+    ∃ j : Nat, 1 ≤ j ∧ e = -((j : Int) + 53) ∧ m ≠ 0 ∧ m % pow2 (-e) = m ∧ m < pow2 (-e) ∧
+      2 ^ (j + 52) ≤ pow2 (-e) - m ∧ pow2 (-e) - m < 2 ^ (j + 53) := by
   have hlt := fracNum_lt true m e
-  -- the exponent is below -53
   have he53 : e < -53 := by
     apply Int.lt_of_not_ge
     intro hge
-    have : pow2 (-e) ≤ pow2 53 := pow2_le_pow2 (by omega)
+    have h1 : pow2 (-e) ≤ pow2 53 := pow2_le_pow2 (by omega)
     have h53 : pow2 53 = two53 := by decide
+    rw [h53] at h1
     omega
   obtain ⟨j, hj⟩ : ∃ j : Nat, -e = (j : Int) + 53 := ⟨(-e - 53).toNat, by omega⟩
   have hj1 : 1 ≤ j := by omega
@@ -441,74 +442,252 @@ theorem fromFloat_neg_tiny {m : Nat} {e : Int} (hc : Canon (fin true m e)) (he :
     rw [two53_eq]; exact Nat.pow_le_pow_right (by decide) (by omega)
   have hdd : 2 ^ (j + 53) = 2 * 2 ^ (j + 52) := by
     rw [show j + 53 = (j + 52) + 1 from rfl, Nat.pow_succ, Nat.mul_comm]
-  have hmd : m % pow2 (-e) = m := Nat.mod_eq_of_lt (by omega)
   have hm0 : m ≠ 0 := by
     intro h0
-    have : fracNum true m e = 0 := (fracNum_eq_zero_iff true m e).2 (by rw [h0]; simp)
-    have : 0 < two53 := by decide
+    have h1 : fracNum true m e = 0 := (fracNum_eq_zero_iff true m e).2 (by rw [h0]; simp)
+    have h2 : 0 < two53 := by decide
     omega
-  have hfn : fracNum true m e = pow2 (-e) - m := by
-    unfold fracNum
-    simp only [if_true]
-    rw [hmd, Nat.mod_eq_of_lt (by omega)]
-  -- floor f = -1
+  refine ⟨j, hj1, by omega, hm0, ?_, ?_, ?_, ?_⟩ <;> rw [hd] at * <;>
+    generalize 2 ^ (j + 53) = D at * <;> generalize 2 ^ (j + 52) = P at *
+  · exact Nat.mod_eq_of_lt (by omega)
+  · omega
+  · omega
+  · omega
+
+theorem sub_neg_tiny {m : Nat} {e : Int} {j : Nat} (hj : e = -((j : Int) + 53))
+    (hmD : m < pow2 (-e)) :
+    sub (fin true m e) (fin true two52 (-52)) = roundRat false (pow2 (-e) - m) 1 e := by
+  simp only [sub, neg, Bool.not_true]
+  unfold add
+  have hmin : min e (-52) = e := by omega
+  simp only [hmin, Int.sub_self, pow2_zero, smant_true, smant_false]
+  have hp : two52 * pow2 (-52 - e) = pow2 (-e) := by
+    have h52 : pow2 52 = two52 := by decide
+    have hnn : (0 : Int) ≤ -52 - e := by omega
+    rw [← h52, ← pow2_add (a := 52) (b := -52 - e) (by decide) hnn]; congr 1; omega
+  have hp' : (two52 : Int) * ((pow2 (-52 - e) : Nat) : Int) = ((pow2 (-e) : Nat) : Int) := by
+    rw [← Int.natCast_mul, hp]
+  rw [hp']
+  generalize pow2 (-e) = D at *
+  have hk' : -(m : Int) * ((1 : Nat) : Int) + (D : Int) = ((D - m : Nat) : Int) := by omega
+  rw [hk']
+  unfold roundInt
+  have hne : ((D - m : Nat) : Int) ≠ 0 := by omega
+  rw [if_neg hne]
+  have hneg : decide (((D - m : Nat) : Int) < 0) = false := by
+    simp only [decide_eq_false_iff_not]; omega
+  rw [hneg, Int.natAbs_natCast]
+
+theorem ge_half_not_lt_epsilon {m' : Nat} {e' : Int} (hm' : two52 ≤ m') (he' : -53 ≤ e') :
+    F64.lt (F64.abs (fin false m' e')) epsilon = false := by
+  show F64.lt (fin false m' e') (fin false two52 (-104)) = false
+  rw [lt_fin_eq_ocmp, ocmp_fin, cmpFin_scale _ _ _ _ _ _ (-104) (by omega) (by omega)]
+  unfold scaled
+  simp only [smant_false, Int.sub_self, pow2_zero]
+  have h1 : (1 : Int) ≤ ((pow2 (e' - -104) : Nat) : Int) := by
+    have := pow2_pos (e' - -104); omega
+  have h2 : (two52 : Int) ≤ (m' : Int) := by omega
+  have h3 : (two52 : Int) * ((1 : Nat) : Int) ≤ (m' : Int) * ((pow2 (e' - -104) : Nat) : Int) := by
+    calc (two52 : Int) * ((1 : Nat) : Int) = (two52 : Int) * 1 := by simp
+      _ ≤ (m' : Int) * ((pow2 (e' - -104) : Nat) : Int) :=
+          Int.mul_le_mul h2 h1 (by decide) (by omega)
+  rw [beq_eq_false_iff_ne]
+  intro hcmp
+  rw [Int.compare_eq_lt] at hcmp
+  omega
+
+theorem fromFloat_neg_tiny {m : Nat} {e : Int} (hc : Canon (fin true m e)) (he : e < 0)
+    (hk : two53 ≤ fracNum true m e) :
+    Value.fromFloat (fin true m e) = .float (fin true m e) := by
+  rw [canon_fin] at hc
+  obtain ⟨j, hj1, hj, hm0, hmd, hmD, hlo, hhi⟩ := neg_tiny_facts hc.1 he hk
   have hfloorInt : floorInt true m e = -1 := by
     unfold floorInt
     rw [if_neg (by omega)]
     simp only [if_true]
-    rw [ceilDiv_cases m _ (pow2_pos _), hmd, if_neg hm0, Nat.div_eq_of_lt (by omega)]
+    rw [ceilDiv_cases m _ (pow2_pos _), hmd, if_neg hm0, Nat.div_eq_of_lt hmD]
     rfl
   have hfl : floor (fin true m e) = roundInt (floorInt true m e) 0 true := by
     simp only [floor]; rw [if_neg (by omega)]
   have hfloor : floor (fin true m e) = fin true two52 (-52) := by
     rw [hfl, hfloorInt, negOne_round]
-  -- f - floor f = round (2^-e - m) · 2^e
-  have hsub : sub (fin true m e) (fin true two52 (-52)) =
-      roundRat false (pow2 (-e) - m) 1 (-((j : Int) + 53)) := by
-    simp only [sub, neg, Bool.not_true]
-    unfold add
-    have hmin : min e (-52) = e := by omega
-    simp only [hmin, Int.sub_self, pow2_zero, smant_true, smant_false]
-    have hp : two52 * pow2 (-52 - e) = pow2 (-e) := by
-      have : pow2 52 = two52 := by decide
-      rw [← this, ← pow2_add (a := 52) (b := -52 - e) (by decide) (by omega)]; congr 1; omega
-    have hk' : -(m : Int) * ((1 : Nat) : Int) + (two52 : Int) * ((pow2 (-52 - e) : Nat) : Int) =
-        ((pow2 (-e) - m : Nat) : Int) := by
-      have hp' : (two52 : Int) * ((pow2 (-52 - e) : Nat) : Int) = ((pow2 (-e) : Nat) : Int) := by
-        rw [← Int.natCast_mul, hp]
-      have hmd' : m < pow2 (-e) := by omega
-      rw [hp']
-      generalize pow2 (-e) = d at *
-      omega
-    rw [hk']
-    unfold roundInt
-    have hne : ((pow2 (-e) - m : Nat) : Int) ≠ 0 := by omega
-    rw [if_neg hne]
-    have hneg : decide (((pow2 (-e) - m : Nat) : Int) < 0) = false := by
-      simp only [decide_eq_false_iff_not]; omega
-    have he' : e = -((j : Int) + 53) := by omega
-    rw [hneg, Int.natAbs_natCast, ← he']
-  obtain ⟨m', e', hR, hm', he'⟩ := roundRat_ge_half (pow2 (-e) - m) j hj1
-    (by rw [hd]; omega) (by rw [hd]; omega)
+  obtain ⟨m', e', hR, hm', he'⟩ := roundRat_ge_half (pow2 (-e) - m) j hj1 hlo hhi
   unfold Value.fromFloat
-  rw [hfloor, hsub, hR]
-  have hlt : F64.lt (F64.abs (fin false m' e')) epsilon = false := by
-    show F64.lt (fin false m' e') (fin false two52 (-104)) = false
-    rw [lt_fin_eq_ocmp, ocmp_fin, cmpFin_scale _ _ _ _ _ _ (-104) (by omega) (by omega)]
-    unfold scaled
-    simp only [smant_false, Int.sub_self, pow2_zero]
-    have : (two52 : Int) * ((1 : Nat) : Int) ≤ (m' : Int) * ((pow2 (e' - -104) : Nat) : Int) := by
-      have h1 : (1 : Int) ≤ ((pow2 (e' - -104) : Nat) : Int) := by
-        have := pow2_pos (e' - -104); omega
-      have h2 : (two52 : Int) ≤ (m' : Int) := by omega
-      calc (two52 : Int) * ((1 : Nat) : Int) = (two52 : Int) * 1 := by simp
-        _ ≤ (m' : Int) * ((pow2 (e' - -104) : Nat) : Int) :=
-            Int.mul_le_mul h2 h1 (by decide) (by omega)
-    rw [beq_eq_false_iff_ne]
-    intro hcmp
-    rw [Int.compare_eq_lt] at hcmp
-    omega
-  rw [hlt]; rfl
+  rw [← hj] at hR
+  rw [hfloor, sub_neg_tiny hj hmD, hR, ge_half_not_lt_epsilon hm' he']
+  rfl
+
+/-! ### complete description of `from_float` on canonical finite doubles -/
+
+theorem fracNum_false_lt {m : Nat} (e : Int) (hm : m < two53) : fracNum false m e < two53 := by
+  unfold fracNum
+  simp only [Bool.false_eq_true, if_false]
+  exact Nat.lt_of_le_of_lt (Nat.mod_le _ _) hm
+
+theorem pow2_1022 : pow2 (-52 - eMin) = 2 ^ 1022 := by decide +kernel
+
+theorem fracSmall_of_zero {s : Bool} {m : Nat} {e : Int} (h : fracNum s m e = 0) :
+    fracSmall s m e = true := by
+  unfold fracSmall
+  rw [h, Nat.zero_mul, decide_eq_true_eq]
+  exact pow2_pos _
+
+theorem fracSmall_tiny {m : Nat} {e : Int} (hc : Canon (fin true m e)) (he : e < 0)
+    (hk : two53 ≤ fracNum true m e) : fracSmall true m e = false := by
+  rw [canon_fin] at hc
+  obtain ⟨j, hj1, hj, hm0, hmd, hmD, hlo, hhi⟩ := neg_tiny_facts hc.1 he hk
+  have hfn : fracNum true m e = pow2 (-e) - m := by
+    unfold fracNum
+    simp only [if_true]
+    rw [hmd, Nat.mod_eq_of_lt (by omega)]
+  unfold fracSmall
+  rw [decide_eq_false_iff_not, hfn, pow2_1022, Nat.not_lt]
+  have hemin : eMin ≤ e := hc.2.1
+  obtain ⟨t, ht⟩ : ∃ t : Nat, e - eMin = t := ⟨(e - eMin).toNat, by omega⟩
+  rw [ht, pow2_natCast]
+  have hjt : j + 52 + t = 1073 := by simp only [eMin] at ht; omega
+  calc 2 ^ 1022 ≤ 2 ^ 1073 := Nat.pow_le_pow_right (by decide) (by decide)
+    _ = 2 ^ (j + 52) * 2 ^ t := by rw [← Nat.pow_add, hjt]
+    _ ≤ (pow2 (-e) - m) * 2 ^ t := Nat.mul_le_mul_right _ hlo
+
+/-- `from_float` returns the `Int` cast exactly when the exponent is non-negative or the
+fractional part is below 2^-52 -/
+def returnsInt (s : Bool) (m : Nat) (e : Int) : Bool := decide (0 ≤ e) || fracSmall s m e
+
+theorem fromFloat_fin {s : Bool} {m : Nat} {e : Int} (hc : Canon (fin s m e)) :
+    Value.fromFloat (fin s m e) =
+      if returnsInt s m e then .int (toI64 (fin s m e)) else .float (fin s m e) := by
+  unfold returnsInt
+  by_cases he : 0 ≤ e
+  · rw [fromFloat_of_nonneg_exp s m e he]; simp [he]
+  · have he' : e < 0 := by omega
+    have hd : decide (0 ≤ e) = false := by simp [he]
+    rw [hd, Bool.false_or]
+    by_cases hk : fracNum s m e < two53
+    · exact fromFloat_of_neg_exp hc he' hk
+    · have hs : s = true := by
+        cases s
+        · exact absurd (fracNum_false_lt e hc.1) hk
+        · rfl
+      subst hs
+      rw [fromFloat_neg_tiny hc he' (by omega), fracSmall_tiny hc he' (by omega)]
+      rfl
+
+theorem fractNonzero_iff (s : Bool) (m : Nat) (e : Int) :
+    fractNonzero (fin s m e) = true ↔ e < 0 ∧ fracNum s m e ≠ 0 := by
+  simp only [fractNonzero]
+  by_cases he : e ≥ 0
+  · simp [he]; omega
+  · rw [if_neg he, bne_iff_ne, ne_eq, ne_eq, fracNum_eq_zero_iff]
+    constructor
+    · intro h; exact ⟨by omega, h⟩
+    · intro h; exact h.2
+
+/-- on an integral double, `truncInt` is its exact value -/
+theorem truncInt_hasVal {s : Bool} {m : Nat} {e : Int} (h : fractNonzero (fin s m e) = false) :
+    HasVal (fin s m e) (truncInt s m e) 0 := by
+  rw [hasVal_fin]
+  unfold truncInt
+  by_cases he : e ≥ 0
+  · rw [if_pos he, Int.sub_zero, pow2_of_nonpos (by omega : 0 - e ≤ 0)]; simp
+  · rw [if_neg he, Int.sub_zero, pow2_of_nonpos (by omega : e ≤ 0), Int.zero_sub,
+      ← smant_mul s (m / pow2 (-e)) (pow2 (-e))]
+    simp only [fractNonzero] at h
+    rw [if_neg he] at h
+    have hmod : m % pow2 (-e) = 0 := by simpa using h
+    rw [Nat.div_mul_cancel (Nat.dvd_of_mod_eq_zero hmod)]; simp
+
+theorem toI64_fin (s : Bool) (m : Nat) (e : Int) :
+    toI64 (fin s m e) = if truncInt s m e < i64Min then i64Min
+      else if truncInt s m e > i64Max then i64Max else truncInt s m e := rfl
+
+/-! ### `val?` against `HasVal` -/
+
+theorem hasVal_of_scaled_eq {s : Bool} {m : Nat} {e k K : Int}
+    (h : smant s m * (pow2 (e - min e K) : Nat) = k * (pow2 (K - min e K) : Nat)) :
+    HasVal (fin s m e) k K := by
+  rw [hasVal_fin]
+  by_cases hc : K ≤ e
+  · have hm : min e K = K := by omega
+    rw [hm, Int.sub_self, pow2_zero] at h
+    rw [pow2_of_nonpos (by omega : K - e ≤ 0)]
+    exact h
+  · have hm : min e K = e := by omega
+    rw [hm, Int.sub_self, pow2_zero] at h
+    rw [pow2_of_nonpos (by omega : e - K ≤ 0)]
+    exact h
+
+theorem val_eq_iff_hasVal (s : Bool) (m : Nat) (e k K : Int) :
+    val? (fin s m e) = some (Dyadic.ofIntWithPrec k (-K)) ↔ HasVal (fin s m e) k K := by
+  refine ⟨fun h => ?_, hasVal_val⟩
+  apply hasVal_of_scaled_eq
+  have h1 := hasVal_val (hasVal_rescale (hasVal_self s m e) (by omega : min e K ≤ e))
+  rw [h, Option.some.injEq,
+    ← ofIntWithPrec_mul_pow2 k (-K) (K - min e K) (by omega)] at h1
+  have : -K + (K - min e K) = -min e K := by omega
+  rw [this, ofIntWithPrec_inj] at h1
+  exact h1.symm
+
+/-! ### when does `from_float` preserve the numeric value? -/
+
+theorem intCast_dyadic (t : Int) : (t : Dyadic) = Dyadic.ofIntWithPrec t (-0) := rfl
+
+theorem intCast_dyadic_inj {a b : Int} (h : (a : Dyadic) = (b : Dyadic)) : a = b := by
+  rw [intCast_dyadic, intCast_dyadic] at h
+  exact (ofIntWithPrec_inj a b (-0)).1 h
+
+/-- exact condition: the value survives `from_float` iff the double is an integer inside the
+`i64` range, or is not an integer and its fractional part is at least 2^-52 -/
+theorem fromFloat_value_iff {s : Bool} {m : Nat} {e : Int} (hc : Canon (fin s m e)) :
+    Value.num (Value.fromFloat (fin s m e)) = Value.num (.float (fin s m e)) ↔
+      (if fractNonzero (fin s m e) = true then fracSmall s m e = false
+       else Value.inI64 (truncInt s m e) = true) := by
+  rw [fromFloat_fin hc]
+  by_cases hfr : fractNonzero (fin s m e) = true
+  · rw [if_pos hfr]
+    obtain ⟨he, hfn⟩ := (fractNonzero_iff s m e).1 hfr
+    have hri : returnsInt s m e = fracSmall s m e := by
+      unfold returnsInt
+      have : decide (0 ≤ e) = false := by simp; omega
+      rw [this, Bool.false_or]
+    rw [hri]
+    cases hfs : fracSmall s m e
+    · simp
+    · simp only [if_true, Value.num, reduceCtorEq, iff_false]
+      intro h
+      rw [intCast_dyadic] at h
+      exact not_hasVal_int_of_fractNonzero hfr ((val_eq_iff_hasVal s m e _ 0).1 h.symm)
+  · rw [if_neg hfr]
+    have hfr' : fractNonzero (fin s m e) = false := by simpa using hfr
+    have hv := truncInt_hasVal hfr'
+    have hval := hasVal_val hv
+    have hri : returnsInt s m e = true := by
+      unfold returnsInt
+      by_cases he : 0 ≤ e
+      · simp [he]
+      · have : fracNum s m e = 0 := by
+          apply Classical.byContradiction
+          intro hne
+          have := (fractNonzero_iff s m e).2 ⟨by omega, hne⟩
+          rw [this] at hfr'; exact absurd hfr' (by decide)
+        rw [fracSmall_of_zero this]; simp
+    rw [hri]
+    simp only [if_true, Value.num, hval, Option.some.injEq, ← intCast_dyadic]
+    rw [toI64_fin]
+    unfold Value.inI64
+    constructor
+    · intro h
+      have h' := intCast_dyadic_inj h
+      simp only [Bool.and_eq_true, decide_eq_true_eq]
+      by_cases h1 : truncInt s m e < i64Min
+      · rw [if_pos h1] at h'; omega
+      · rw [if_neg h1] at h'
+        by_cases h2 : truncInt s m e > i64Max
+        · rw [if_pos h2] at h'; omega
+        · omega
+    · intro h
+      simp only [Bool.and_eq_true, decide_eq_true_eq] at h
+      rw [if_neg (by omega), if_neg (by omega)]
 
 end F64
 end Ag
